@@ -8,4 +8,5 @@ def main : IO UInt32 :=
     | "c06" => C06.check params lines
     | "c06loop" => C06.checkLoop params lines
     | "c06term" => C06.checkTerm params lines
+    | "c06burst" => C06.checkBurst params lines
     | _ => { bad := [s!"unknown family {family}"] })
